@@ -305,9 +305,11 @@ def build(backend, tier):
         "obj": ("P1", "vm_objs", "t_int"), "objptr": ("const P1*", "vm_objptrs", "t_int"),
     }
     for en, (ctype, store, tmeth) in elem.items():
-        for cform, cptr in (("default", 0), ("custom", 0), ("custom", 1)):
-            cname = f"std::vector<{ctype}>" if cform == "default" else "MyVec"
-            pre_types = "" if cform == "default" else f"struct MyVec : std::vector<{ctype}> {{}};"
+        # "spelled": the collection type is declared by its template spelling (std::vector<const P1*>, and a pointer to it) -
+        # a '*' inside the template arguments is part of the element type, not of the collection's pointer depth
+        for cform, cptr in (("default", 0), ("custom", 0), ("custom", 1), ("spelled", 0), ("spelled", 1)):
+            cname = f"std::vector<{ctype}>" if cform in ("default", "spelled") else "MyVec"
+            pre_types = "" if cform in ("default", "spelled") else f"struct MyVec : std::vector<{ctype}> {{}};"
             ret = cxx_type(cname, cptr)
             extra = (f"  std::vector<float> vm_tags_; std::vector<int> vm_itags_; std::vector<P1> vm_objs_; std::vector<const P1*> vm_objptrs_;\n"
                      f"  {cname} cstore; const {cname}* cp; const {cname}* const* cpp;\n"
@@ -319,7 +321,7 @@ def build(backend, tier):
             pre = gen_prelude(backend, [], root_extra=extra, pre="\n".join([gen_level(1, 0, None), "typedef P1 W1;", pre_types]))
             kw = {"return_type_element": {"float": "float", "int": "int", "obj": "P1", "objptr": "P1*"}[en]}
             if cform != "default":
-                kw["return_type_collection"] = "MyVec" + "*" * cptr
+                kw["return_type_collection"] = cname + "*" * cptr
             md = [mti("Root", "c", **kw)]
             refm = {"float": "cf", "int": "ci", "obj": "co", "objptr": "co"}[en]
             body = "(x * 2)" if tmeth is None else f"x.{tmeth}()"
